@@ -69,7 +69,15 @@ def run(ctx):
                                 space_kind=["grid", "graph"][(i // 12) % 2])
         if i % 6 in (1, 2):
             S["kw"]["rng_seed"] = 0          # seed 0 is a seed like any other
-        entries.append({"S": S, "info": info, "option": option, "idx": i})
+        eng = option
+        if i % 8 == 3:
+            # a legal LibRDEngine configuration other than the stock one: Euler working in molecules, a stochastic engine in the
+            # script's quantity unit; "auto" processing must still mean none for Euler / redistribution for the stochastic ones
+            eng = option + (":mol" if option == "euler" else ":nomol")
+            if option == "euler":
+                S["kw"]["init_state_processing"] = "auto"
+                info["mode"] = "auto"
+        entries.append({"S": S, "info": info, "option": option, "eng": eng, "idx": i})
     # tau-leap with large channel means (propensity * dt >= 12): A <-> B with 40000 molecules per cell
     for b in range(ctx.n(3, 12)):
         w, h = rng.choice([(2, 2), (2, 1), (3, 1), (1, 1)])
@@ -85,11 +93,16 @@ def run(ctx):
                                     "rng_seed": rng.randint(0, 2 ** 31 - 1), "init_state_processing": "none",
                                     "units_system": {"time": "s", "space": "µm", "quantity": "molecule"}}}
         info = {"option": "tauleap", "policy": S["kw"]["sampling_policy"], "space": "grid", "bigmean": True, "nsp": 2, "n": ncell}
-        entries.append({"S": S, "info": info, "option": "tauleap", "idx": n + b, "bigmean": True})
+        entries.append({"S": S, "info": info, "option": "tauleap", "eng": "tauleap", "idx": n + b, "bigmean": True})
+    # Euler engines built with requires_molecules=True on spaces with several cells, non-integer amounts, "auto" processing
+    for b in range(ctx.n(3, 12)):
+        S, info = lc.gen_script(rng, "euler", max_steps=40, mode="auto", policy=rng.choice(["on_iteration", "on_t_sample", "on_interval"]),
+                                space_kind=["grid", "graph"][b % 2], units=(b % 3 == 2))
+        entries.append({"S": S, "info": info, "option": "euler", "eng": "euler:mol", "idx": n + 100 + b})
     # ---- references: fresh process, one iteration at a time (also yields the clock for the model)
     jobs = []
     for e in entries:
-        jobs.append({"id": "ref%d" % e["idx"], "engines": [e["option"]], "scripts": [e["S"]], "timeout": 20,
+        jobs.append({"id": "ref%d" % e["idx"], "engines": [e["eng"]], "scripts": [e["S"]], "timeout": 20,
                      "calls": [{"obj": 0, "call": "setup", "script": 0, "peek": True},
                                {"obj": 0, "call": "drive", "max": 3000, "state": False, "size": 0, "samples": [], "past_end": 0},
                                {"obj": 0, "call": "get_output", "full": True}, {"obj": 0, "call": "finalize"}]})
@@ -107,6 +120,14 @@ def run(ctx):
         if drive["U"] and drive["U"][-1]:
             ctx.count("reference_too_long")
             continue
+        want_seed = e["S"]["kw"].get("rng_seed")
+        got_seed = r["results"][0]["meta"].get("seed")
+        if want_seed is not None and got_seed != want_seed:
+            ctx.violation("seed-type", "a seed given as %s%s is not the seed of the script: rng_seed = %r, given %r" % (
+                e["info"].get("seed_as", "int"), " through rdscript_from_dict (key \"seed\")" if e["info"].get("from_dict") else "", got_seed, want_seed),
+                {"job": {k: j[k] for k in ("id", "engines", "scripts", "calls")}, "kind": "seed-type", "want_seed": want_seed}, impl=got_seed, expected=want_seed)
+        ctx.count("seed_as_%s%s" % (e["info"].get("seed_as", "int"), "_from_dict" if e["info"].get("from_dict") else ""))
+        ctx.count("engine_" + e["eng"])
         e["ref"] = {"hash": r["results"][2]["ret"]["hash"], "out": r["results"][2]["ret"], "meta": r["results"][0]["meta"],
                     "T": [r["results"][0]["T"]] + drive["T"], "U": drive["U"]}
         good.append(e)
@@ -121,7 +142,7 @@ def run(ctx):
             if e.get("bigmean"):
                 kind = ["repeat4", "after_others", "reused", "twice", "resim", "poll_reused"][v % 6]
                 others = [o for o in good if o is not e and o.get("bigmean")] or others
-            calls, scripts, engines = [], [e["S"]], [e["option"]]
+            calls, scripts, engines = [], [e["S"]], [e["eng"]]
             sched = rand_schedule(rng)
             if rng.random() < 0.5:
                 sched.append(["iterate_n", rng.choice([64, 1000])])      # repeated until completion: overshoots the completing step
@@ -131,10 +152,10 @@ def run(ctx):
                 for o in rng.sample(others, min(len(others), rng.randint(1, 3))):
                     scripts.append(o["S"])
                     si = len(scripts) - 1
-                    if o["option"] == e["option"] and kind == "reused":
+                    if o["eng"] == e["eng"] and kind == "reused":
                         ob = 0          # the very engine object that will run the script afterwards
                     else:
-                        engines.append(o["option"])
+                        engines.append(o["eng"])
                         ob = len(engines) - 1
                     calls.append({"obj": ob, "call": "setup", "script": si})
                     calls.append({"obj": ob, "call": "schedule", "steps": rand_schedule(rng), "max": rng.choice([3, 50, 100000])})
@@ -187,7 +208,7 @@ def run(ctx):
         # another seed
         S3 = json.loads(json.dumps(e["S"]))
         S3["kw"]["rng_seed"] = (e["S"]["kw"]["rng_seed"] + 12345) % (2 ** 31)
-        jobs.append({"id": "v%d_seed" % e["idx"], "engines": [e["option"]], "scripts": [S3], "timeout": 30, "kind": "otherseed", "entry": e["idx"],
+        jobs.append({"id": "v%d_seed" % e["idx"], "engines": [e["eng"]], "scripts": [S3], "timeout": 30, "kind": "otherseed", "entry": e["idx"],
                      "sched": [], "calls": [{"obj": 0, "call": "simulate", "script": 0}]})
     res = lc.run_jobs(jobs, kind="plain", chunk=ctx.n(6, 20), parallel=ctx.n(8, 8), stall=ctx.n(10, 30))
     by_idx = {e["idx"]: e for e in good}
@@ -210,7 +231,8 @@ def run(ctx):
             h = outs[-1]["hash"]
             # (with init_state_processing Poisson / redist the initial state is drawn with the seed, for every engine)
             if e["option"] == "euler" and e["info"].get("mode") in ("none", "auto") and h != e["ref"]["hash"]:
-                ctx.violation("euler-seed", "the deterministic engine's trajectory changed with the seed", case, impl=h, expected=e["ref"]["hash"])
+                ctx.violation("euler-seed", "the deterministic engine's trajectory changed with the seed (engine object %s, init_state_processing %s)"
+                              % (e["eng"], e["info"].get("mode")), case, impl=h, expected=e["ref"]["hash"])
             if e["option"] != "euler":
                 ctx.count("stochastic_seed_changed" if h != e["ref"]["hash"] else "stochastic_seed_same")
             continue
@@ -306,6 +328,10 @@ def replay(ctx, rec):
         return False, {"status": r["status"], "at": r["at"]}
     outs = [x["ret"] for c, x in zip(job["calls"], r["results"]) if c["call"] in ("get_output", "simulate", "resim") and "ret" in x]
     detail = {"kind": job.get("kind"), "hashes": [o["hash"] for o in outs], "reference_hash": case.get("reference_hash")}
+    if case.get("kind") == "seed-type":
+        got = r["results"][0].get("meta", {}).get("seed")
+        detail.update(seed=got, given=case.get("want_seed"))
+        return got == case.get("want_seed"), detail
     inits = [f for x in r["results"] for f in lc.init_failures(x)]
     if inits:
         detail["marshalling"] = [{"key": f[0], "what": f[1]} for f in inits[:3]]
